@@ -366,6 +366,26 @@ def run_case(ctx, case, build):
                         ctx.fail('nan_channel_has_no_effect', dict(sig, what='value', mech=mech), f'pair {sorted(map(str, k))}: '
                                  f'{got[k][0]!r} with the all-NaN channel, {g2[k][0]!r} without it', wit())
                         break
+    # --- the user corrects a few numbers of the dataset in place and asks again: the RDM is that of the numbers the object
+    # holds now, i.e. what a freshly built dataset with the same content gives
+    ds_e = build_ds(case, np.array(meas, dtype=float, copy=True), 'C')      # (an object of its own: `ds` is used below)
+    mm = ds_e.measurements
+    if not has_nan and isinstance(mm, np.ndarray) and mm.dtype == np.float64 and mm.flags.writeable:
+        ctx.guarded('unbalanced_vs_reference', sig, call_unb, case, ds_e, data=wit)
+        mm[0] = mm[0] * 1.5 + 0.25
+        okA, rdA = ctx.guarded('unbalanced_vs_reference', sig, call_unb, case, ds_e, data=wit)
+        okB, rdB = ctx.guarded('unbalanced_vs_reference', sig, call_unb, case, build_ds(case, np.array(mm, copy=True), 'C'),
+                               data=wit)
+        if okA and okB:
+            ctx.case('unbalanced_vs_reference', dict(sig, edited_in_place=True))
+            _, gA = ref.rdms_as_pairs(rdA, 'cond')
+            _, gB = ref.rdms_as_pairs(rdB, 'cond')
+            for k in gB:
+                if not close(gA[k][0], gB[k][0], 1e-10, 1e-12 * scale):
+                    ctx.fail('unbalanced_vs_reference', dict(sig, what='history_dependent', mech='none'), f'after an in-place '
+                             f'edit of the measurements, pair {sorted(map(str, k))} is {gA[k][0]!r}; a fresh dataset with '
+                             f'the same numbers gives {gB[k][0]!r}', wit())
+                    break
     # --- equalities with calc_rdm where theory demands them
     if not has_nan:
         m = case['method']
